@@ -237,13 +237,14 @@ struct G<'a, 'b, 'c> {
     scopes: Vec<Vec<(String, usize)>>,
     cur: usize,
     excluded_shadowed_guard: usize,
+    no_binders: bool,
     /// binders whose uses are Weak occurrences (string-prefix binders)
     weak: std::collections::HashSet<usize>,
     in_alias: bool,
 }
 
 pub fn gen_workspace(c: &mut Choices, cfg: &Cfg) -> (ScopedWs, usize) {
-    let mut g = G { c, cfg, out: ScopedWs::default(), mods: vec![], imports: vec![], scopes: vec![], cur: 0, excluded_shadowed_guard: 0, weak: Default::default(), in_alias: false };
+    let mut g = G { c, cfg, out: ScopedWs::default(), mods: vec![], imports: vec![], scopes: vec![], cur: 0, excluded_shadowed_guard: 0, no_binders: false, weak: Default::default(), in_alias: false };
     g.signatures();
     g.choose_imports();
     for m in 0..g.mods.len() {
@@ -935,7 +936,7 @@ impl<'a, 'b, 'c> G<'a, 'b, 'c> {
             0 => {
                 let mut taken: Vec<String> = binders.iter().map(|b| b.0.clone()).collect();
                 // a pattern must not bind one name twice: when the pool is used up, discard
-                match self.distinct(LOCALS, 1, &mut taken).into_iter().next() {
+                match self.binder_name(&mut taken) {
                     Some(name) => {
                         let d = self.new_decl(kind, em.file, &name, false);
                         self.def(em, d, "pattern variable");
@@ -974,7 +975,7 @@ impl<'a, 'b, 'c> G<'a, 'b, 'c> {
                     em.raw("..");
                     if self.c.chance(200) {
                         let mut taken: Vec<String> = binders.iter().map(|b| b.0.clone()).collect();
-                        if let Some(name) = self.distinct(LOCALS, 1, &mut taken).into_iter().next() {
+                        if let Some(name) = self.binder_name(&mut taken) {
                             let d = self.new_decl(DK::Spread, em.file, &name, false);
                             self.def(em, d, "spread binder");
                             self.out.decls[d].focus_max = (s, em.pos());
@@ -1050,7 +1051,7 @@ impl<'a, 'b, 'c> G<'a, 'b, 'c> {
                 let _ = before;
                 let mut taken: Vec<String> = binders.iter().map(|b| b.0.clone()).collect();
                 // when the pool of names is used up the `as` clause is simply left out
-                if let Some(name) = self.distinct(LOCALS, 1, &mut taken).into_iter().next() {
+                if let Some(name) = self.binder_name(&mut taken) {
                     em.raw(" as ");
                     let d = self.new_decl(DK::AsName, em.file, &name, false);
                     self.def(em, d, "as-name");
@@ -1061,16 +1062,37 @@ impl<'a, 'b, 'c> G<'a, 'b, 'c> {
                 // "pre" <> rest
                 em.raw("\"pré\" <> ");
                 let mut taken: Vec<String> = binders.iter().map(|b| b.0.clone()).collect();
-                if let Some(name) = self.distinct(LOCALS, 1, &mut taken).into_iter().next() {
+                if let Some(name) = self.binder_name(&mut taken) {
                     let d = self.new_decl(kind, em.file, &name, false);
                     let s = em.pos();
                     self.ident(em, &name, Role::Def, Some(d), OccTier::Core, "string-prefix binder");
                     self.out.decls[d].name_range = (s, em.pos());
                     self.out.decls[d].focus_max = (s, em.pos());
                     binders.push((name, d));
+                } else {
+                    em.raw("_");
                 }
             }
         }
+    }
+
+    /// a fresh binder name for a pattern, or None (pool used up, or binders are not wanted: the
+    /// alternatives of one clause must bind the same names, so they are generated without any)
+    fn binder_name(&mut self, taken: &mut Vec<String>) -> Option<String> {
+        if self.no_binders {
+            return None;
+        }
+        // now and then a local is called like an imported module: qualifiers in patterns and types
+        // still name the module (in expressions the local wins: those occurrences are Weak)
+        if self.c.chance(24) {
+            let accs: Vec<String> = self.imports[self.cur].iter().map(|i| i.accessor.clone()).filter(|a| !taken.contains(a)).collect();
+            if !accs.is_empty() {
+                let a = accs[self.c.below(accs.len())].clone();
+                taken.push(a.clone());
+                return Some(a);
+            }
+        }
+        self.distinct(LOCALS, 1, taken).into_iter().next()
     }
 
     /// reference to a value by (possibly shadowed) name
@@ -1295,12 +1317,21 @@ impl<'a, 'b, 'c> G<'a, 'b, 'c> {
             self.indent(em, ind + 1);
             let mut binders = vec![];
             self.scopes.push(vec![]);
-            for i in 0..ns {
-                if i > 0 {
-                    em.raw(", ");
+            // alternatives (`p | q ->`): generated without binders
+            let alternatives = if ns == 1 && self.c.chance(50) { 2 + self.c.below(2) } else { 1 };
+            self.no_binders = alternatives > 1;
+            for alt in 0..alternatives {
+                if alt > 0 {
+                    em.raw(" | ");
                 }
-                self.pattern(em, 2, DK::ClauseVar, &mut binders);
+                for i in 0..ns {
+                    if i > 0 {
+                        em.raw(", ");
+                    }
+                    self.pattern(em, 2, DK::ClauseVar, &mut binders);
+                }
             }
+            self.no_binders = false;
             // guard: sees the clause's binders (Gleam); glas does not lower guards (Weak)
             let want_guard = self.c.chance(60);
             for (n, d) in &binders {
